@@ -43,6 +43,25 @@ Section C07.
                             forall s', In s' (g_edges g) -> e_kind s' = ECreated -> e_to s' = v -> s' = s).
   Proof. exact (thm_one_version c_version c_versions c_requirements is_simple cmatch vless). Qed.
 
+  (* ---- the ghost fields against what the Go edge shows: the artifact key is the key of the
+     declared package and the edge's type, the requirement is the declared (managed) version, and
+     for a client that answers with the package it was asked about the target is a version of the
+     declared package, so the key can be read off (target package, classifier, type). *)
+  Theorem C07_ghost_consistent : forall fuel root g,
+    resolve fuel root = Ok g ->
+    forall e, In e (g_edges g) ->
+      e_mk e = mkey_for (vk_pk (e_dvk e)) (e_ty e) /\ e_req e = vk_ver (e_dvk e) /\
+      (version_faithful c_version -> versions_faithful c_versions -> vk_pk (e_to e) = vk_pk (e_dvk e)).
+  Proof. exact (thm_ghost c_version c_versions c_requirements is_simple cmatch vless). Qed.
+
+  (* PARTIAL (same restriction as above), on the observable fields only *)
+  Theorem C07_one_version_observable_partial : forall fuel root g,
+    version_faithful c_version -> versions_faithful c_versions -> resolve fuel root = Ok g ->
+    forall e1 e2, In e1 (g_edges g) -> In e2 (g_edges g) ->
+      mkey_for (vk_pk (e_to e1)) (e_ty e1) = mkey_for (vk_pk (e_to e2)) (e_ty e2) ->
+      e_kind e1 <> EShared -> e_kind e2 <> EShared -> e_to e1 = e_to e2.
+  Proof. exact (thm_one_version_observable c_version c_versions c_requirements is_simple cmatch vless). Qed.
+
   (* ---- every edge whose requirement is a range points to a version inside that range *)
   Theorem C07_range_edges : forall fuel root g,
     version_faithful c_version -> resolve fuel root = Ok g ->
@@ -118,14 +137,18 @@ Section C07.
               forall e, In e (e0 :: rest) -> e_to e = v_vk v.
   Proof. exact (thm_nearest_single_pass c_version c_versions c_requirements is_simple cmatch vless). Qed.
 
-  (* ---- when no version satisfies the requirements a node error is reported instead.
-     PARTIAL: (a) one declaration: if findMatch answers errNoMatch the step records the node error
-     and goes on, it never makes an edge; (b) in the returned graph every edge is an answer of
-     findMatch on the requirement list accumulated when its declaration was processed (a prefix of
-     the final list) and every node error is an errNoMatch answer.  What is missing: a trace-level
-     statement that every kept declaration of every traversed node is represented by an edge or a
-     node error (checked by the direct oracle on the Go graphs for range declarations). *)
-  Theorem C07_no_match_reported_partial :
+  (* ---- when no version satisfies the requirements a node error is reported instead (the other
+     outcome, the incompatible-requirements error, is a resolution that returns no graph).
+     (a) one declaration: if findMatch answers errNoMatch the step records the node error and goes
+         on; it never makes an edge;
+     (b) in the returned graph every edge is an answer of findMatch on the requirement list
+         accumulated when its declaration was processed (a prefix of the final list) and every node
+         error is an errNoMatch answer;
+     (c) nothing vanishes: every node of the graph was taken from the queue, and unless it was
+         created through a war/ear/rar dependency its requirements were read and every kept
+         declaration that the node's exclusion set does not exclude is represented by an edge or by a
+         node error leaving that node, carrying that declaration's (managed) requirement and key. *)
+  Theorem C07_no_match_reported :
     (forall mgt first cur st d,
         is_excluded (n_excl cur) (dep_name d) = Ok false ->
         find_match (dep_l mgt first st d) = Err ENoMatch ->
@@ -137,10 +160,22 @@ Section C07.
            (forall e, In e (g_edges g) ->
                       exists l m, prefix l (reqs_of R (e_mk e)) /\ In (e_dvk e) l /\ find_match l = Ok m /\ e_to e = v_vk m)
            /\ (forall ne, In ne (g_errs g) ->
-                          exists l, prefix l (reqs_of R (ne_mk ne)) /\ In (ne_req ne) l /\ find_match l = Err ENoMatch)).
+                          exists l, prefix l (reqs_of R (ne_mk ne)) /\ In (ne_req ne) l /\ find_match l = Err ENoMatch))
+    /\ (forall fuel root g,
+           resolve fuel root = Ok g ->
+           forall ver imps0, c_version root = Ok ver -> c_requirements (v_vk ver) = Ok imps0 ->
+           forall x, In x (g_nodes g) ->
+           exists t, n_vk t = x /\ aget vkey_dec (g_nexcl g) x = Some (n_excl t) /\
+                     ((x = root /\ n_incl t = false) \/
+                      exists s, In s (g_edges g) /\ e_kind s = ECreated /\ e_to s = x /\ n_incl t = warish (e_ty s)) /\
+                     (n_incl t = true \/
+                      exists ds, imports c_requirements x (if is_first root x then all_imports else 0) = Ok ds /\
+                                 forall d, In d ds -> is_excluded (n_excl t) (dep_name d) = Ok false ->
+                                           represented (mgt_of imps0) (is_first root x) x d g)).
   Proof.
     exact (conj (thm_no_match_step c_version c_versions is_simple cmatch vless)
-                (thm_justified c_version c_versions c_requirements is_simple cmatch vless)).
+                (conj (thm_justified c_version c_versions c_requirements is_simple cmatch vless)
+                      (thm_complete c_version c_versions c_requirements is_simple cmatch vless))).
   Qed.
 
   (* ---- the retry loop: a pass only appends to the requirement lists; an incompatible pass
@@ -170,7 +205,9 @@ Print Assumptions C07_exclusions.
 Print Assumptions C07_management.
 Print Assumptions C07_nearest_requirements.
 Print Assumptions C07_nearest_partial.
-Print Assumptions C07_no_match_reported_partial.
+Print Assumptions C07_no_match_reported.
+Print Assumptions C07_ghost_consistent.
+Print Assumptions C07_one_version_observable_partial.
 Print Assumptions C07_retry_monotone.
 
 (* ---- the unrestricted clauses are false of the faithful model (and of the Go code: the witnesses
